@@ -91,7 +91,7 @@ func hVal(v uint64) []byte { return binary.BigEndian.AppendUint64(nil, v) }
 // ---------------------------------------------------------------- scripted action
 
 type hOp struct {
-	kind byte // 'g' get, 'p' put, 'd' del, 'f' fail
+	kind byte // 'g' get, 'p' put, 'd' del, 'f' fail, 'P' put of a value too large for the key's size suffix
 	key  int
 	val  uint64
 }
@@ -171,7 +171,43 @@ func (a *scriptAction) StateKeys(codec.Address, ids.ID) state.Keys {
 	return ks
 }
 
+// hEvents records, per tx (Nonce>>8), when its action bodies start and end; the C01 oracle checks
+// that conflicting txs never overlap and run in block order.
+var (
+	hEventsMu sync.Mutex
+	hEventsOn bool
+	hEvents   []hEvent
+)
+
+type hEvent struct {
+	seq   uint32
+	start bool
+}
+
+func hEventsStart() {
+	hEventsMu.Lock()
+	hEventsOn, hEvents = true, nil
+	hEventsMu.Unlock()
+}
+
+func hEventsStop() []hEvent {
+	hEventsMu.Lock()
+	defer hEventsMu.Unlock()
+	hEventsOn = false
+	return hEvents
+}
+
+func hLogEvent(seq uint32, start bool) {
+	hEventsMu.Lock()
+	if hEventsOn {
+		hEvents = append(hEvents, hEvent{seq, start})
+	}
+	hEventsMu.Unlock()
+}
+
 func (a *scriptAction) Execute(ctx context.Context, _ chain.Rules, mu state.Mutable, _ int64, _ codec.Address, _ ids.ID) ([]byte, error) {
+	hLogEvent(uint32(a.Nonce>>8), true)
+	defer hLogEvent(uint32(a.Nonce>>8), false)
 	out := []byte{}
 	for _, o := range a.Ops {
 		if a.Yield {
@@ -195,6 +231,10 @@ func (a *scriptAction) Execute(ctx context.Context, _ chain.Rules, mu state.Muta
 			}
 		case 'd':
 			if err := mu.Remove(ctx, hKey(o.key)); err != nil {
+				return nil, err
+			}
+		case 'P':
+			if err := mu.Insert(ctx, hKey(o.key), make([]byte, 200)); err != nil {
 				return nil, err
 			}
 		case 'f':
@@ -346,7 +386,7 @@ func parseProgField(s string) ([][]hOp, error) {
 						return nil, errors.New("bad op")
 					}
 					ops = append(ops, hOp{kind: 'f'})
-				case 'g', 'd':
+				case 'g', 'd', 'P':
 					k, err := strconv.Atoi(o[1:])
 					if err != nil || k < 0 || k >= hNumKeys {
 						return nil, errors.New("bad op")
@@ -389,14 +429,15 @@ func buildTx(sp hTxSpec, blockTime int64, validity int64, seq uint32, yield bool
 	if sp.sponsor < hNumActionKeys || sp.sponsor >= hNumKeys {
 		return nil, errors.New("bad sponsor")
 	}
-	valid := (blockTime/1000 + 2) * 1000
+	// 30 s of margin on both sides: the builder samples its own time.Now() after the harness did
+	valid := (blockTime/1000 + 30) * 1000
 	base := chain.Base{Timestamp: valid, ChainID: hChainID, MaxFee: ^uint64(0)}
 	switch sp.pre {
 	case "1":
 	case "0e":
-		base.Timestamp = (blockTime/1000 - 1) * 1000
+		base.Timestamp = (blockTime/1000 - 30) * 1000
 	case "0f":
-		base.Timestamp = (blockTime/1000)*1000 + validity + 5000
+		base.Timestamp = (blockTime/1000)*1000 + validity + 90000
 	case "0c":
 		base.ChainID = ids.ID{0xBA, 0xD}
 	case "0m":
@@ -481,6 +522,8 @@ func showResult(id int, r *chain.Result) string {
 			st = "fs"
 		case bytes.Contains(r.Error, []byte(tstate.ErrInvalidKeyOrPermission.Error())):
 			st = "fp"
+		case bytes.Contains(r.Error, []byte(tstate.ErrInvalidKeyValue.Error())):
+			st = "fv"
 		default:
 			st = "f?" + string(r.Error)
 		}
@@ -519,12 +562,16 @@ func hMetaKeys() (h, t, f []byte) {
 
 // newParentDB builds a merkledb holding the universe values plus the chain metadata.
 func newParentDB(vals map[int]uint64, height uint64, ts int64) (merkledb.MerkleDB, error) {
+	return newParentDBFee(vals, height, ts, []byte{})
+}
+
+func newParentDBFee(vals map[int]uint64, height uint64, ts int64, feeRaw []byte) (merkledb.MerkleDB, error) {
 	db, err := merkledb.New(context.Background(), memdb.New(), merkledb.Config{BranchFactor: merkledb.BranchFactor16, Tracer: trace.Noop})
 	if err != nil {
 		return nil, err
 	}
 	hk, tk, fk := hMetaKeys()
-	if err := errors.Join(db.Put(hk, hVal(height)), db.Put(tk, hVal(uint64(ts))), db.Put(fk, []byte{})); err != nil {
+	if err := errors.Join(db.Put(hk, hVal(height)), db.Put(tk, hVal(uint64(ts))), db.Put(fk, feeRaw)); err != nil {
 		return nil, err
 	}
 	for k, v := range vals {
@@ -620,7 +667,7 @@ func (g *hGenTx) progField() string {
 	return strings.Join(parts, "/")
 }
 
-var hPermChoices = []int{1, 1, 1, 5, 5, 5, 7, 7, 3, 0}
+var hPermChoices = []int{1, 1, 1, 1, 5, 5, 5, 5, 7, 7, 7, 3, 3, 0, 4, 2, 6, 9, 13, 255}
 
 // genTx draws one transaction: 1..6 declared keys out of `hot` (a small subset of the universe,
 // so that conflicts are frequent), random permissions, 0..3 actions of scripted ops that mostly
@@ -682,6 +729,9 @@ func genTx(rng *verifh.RNG, hot []int, failPct int) *hGenTx {
 				}
 				ops = append(ops, fmt.Sprintf("d%d", k))
 			}
+		}
+		if rng.Chance(3) {
+			ops = append(ops, fmt.Sprintf("P%d", declared[rng.Intn(len(declared))]))
 		}
 		if rng.Chance(failPct) {
 			ops = append(ops, "f")
@@ -812,6 +862,13 @@ func plainSequential(parent map[int]uint64, specs []hTxSpec, units []fees.Dimens
 						break actions
 					}
 					delete(st, o.key)
+				case 'P':
+					if p&5 != 5 {
+						status = "fp"
+					} else {
+						status = "fv"
+					}
+					break actions
 				case 'f':
 					status = "fs"
 					break actions
